@@ -329,6 +329,7 @@ func (cx *Ctx) runC18() {
 	cx.Budgets.Frame = 2_000_000
 	cx.Budgets.Ticks = 50_000_000
 	known := cx.replayKnown()
+	corpusN := cx.runCorpus()
 	r := rng{s: mix(cx.Seed, 0xC18)}
 
 	// ---- stage A: random histories
@@ -533,6 +534,7 @@ func (cx *Ctx) runC18() {
 		"passivity_pairs_compared":     passCompared,
 		"history_jobs_that_died":       died,
 		"runs_per_hour":                int(float64(ncalls) / wall * 3600),
+		"regression_corpus_specs":     corpusN,
 		"known_findings_confirmed":     known,
 		"violation_keys":               violKeys(cx),
 	}
